@@ -60,6 +60,7 @@ func c01Corpus(r *Run) []*pipeline.Case {
 			c.HyphenPath = i%8 == 6 && !c.DottedPath
 			c.FullPathOverride = i%8 == 4 && !c.UseOverride
 			c.DecoyPrefixOverrides = i%4 == 2
+			c.MixedCaseTarget = i%8 == 2
 			cases = append(cases, c)
 		}
 	}
